@@ -860,6 +860,10 @@ class Exec:
                 computed = {}
                 for c in sub.columns:
                     nm = c.alias or (c.expr.parts[-1] if isinstance(c.expr, A.Name) else None)
+                    if nm is None and isinstance(c.expr, A.Lit) and c.expr.kind != 'null':
+                        # (C01 wave 4) `SELECT 1 FROM ...` as an existence probe in a (LATERAL) derived table: MySQL names the
+                        # column after the literal's text; it cannot clash with a real column name
+                        nm = str(c.expr.value)
                     if nm is None:
                         raise Undecided('derived table column without a name')
                     computed[nm] = self.ev(c.expr, sc_in)
